@@ -44,7 +44,7 @@ def default_cfg(main: bytes, handler: bytes, imr: int = 0, timer=(False, 0, 0), 
             "kb_press": kb_press, "kol": kol}
 
 
-OBS_MEM = [(STACK - 48, 48), (0xB8100, 8), (0xB8200, 8)]
+OBS_MEM = [(STACK - 48, 48), (0xB8100, 8), (0xB8200, 8), (0x4FFF8, 8), (0x57FF8, 8)]
 
 
 # ---- Python ------------------------------------------------------------------------------------
@@ -60,6 +60,8 @@ class PyMachine:
         for addr, data in cfg["rom"].items():
             rom[addr - ROM_BASE: addr - ROM_BASE + len(data)] = data
         emu.load_rom(bytes(rom))
+        if cfg.get("expand_ram"):
+            emu.expand_ram(*cfg["expand_ram"])
         for n in ("BA", "I", "X", "Y", "U", "S", "PC", "F"):
             if n in cfg["regs"]:
                 emu.cpu.regs.set(RegisterName[n], cfg["regs"][n])
